@@ -41,7 +41,7 @@ HdrLawsHold == \A o \in Lists(HA), s \in Lists(SA) :
    /\ HInstance(o, s) => HeaderDist(o, s) = 0
    /\ HeaderDist(o, s) \in {REJ, 0, 1, 2, 3}
 SwLawsHold ==
-   /\ \A o \in {"", "a", "ab", "xaby"}, s \in {"", "a", "ab", "b", "ba"} : (Contains(o, s) => SwDist(o, s, {}) = 0) /\ SwDist(o, s, {}) \in {0, PenSw}
+   /\ \A o \in {"", "a", "ab", "xaby"}, s \in {"", "a", "ab", "b", "ba"} : (StrContains(o, s) => SwDist(o, s, {}) = 0) /\ SwDist(o, s, {}) \in {0, PenSw}
    /\ SwDist("Mozilla Firefox/3.0", "Firefox/", {}) = 0
    /\ SwDist("Mozilla Firefox/3.0", "Firefox/", {"D12_sw_reversed"}) = PenSw      \* the model sees the recorded defect
    /\ SwDist("Fire", "Firefox/", {"D12_sw_reversed"}) = 0
